@@ -1,10 +1,14 @@
 package props
 
 import (
+	"encoding/json"
 	"fmt"
 	"io"
 	"reflect"
 	"testing"
+
+	m2 "github.com/goark/go-cvss/v2/metric"
+	m3 "github.com/goark/go-cvss/v3/metric"
 
 	"github.com/goark/go-cvss/v3/report"
 	"golang.org/x/text/language"
@@ -21,7 +25,7 @@ import (
 // must equal the twin (and the twin built right after the last assignment).
 
 type op struct {
-	Kind   string `json:"op"`               // q | report | set | noise | snapshot
+	Kind   string `json:"op"`               // q | report | set | noise | snapshot | redecode
 	View   int    `json:"view,omitempty"`   // q: which level view
 	Obs    string `json:"obs,omitempty"`    // q: score | severity | geterror | encode | string
 	Field  string `json:"field,omitempty"`  // set: exported field name
@@ -36,8 +40,11 @@ type opsCase struct {
 	Ver     int    `json:"cvss_version"`
 	Level   int    `json:"decoder_level"`
 	NilRecv bool   `json:"nil_receiver"`
-	Input   string `json:"input"`
-	Ops     []op   `json:"ops"`
+	// PreQuery: every observer is called on the constructor result *before* Decode (a fresh
+	// object may be queried; that must not influence what Decode produces)
+	PreQuery bool   `json:"query_before_decode,omitempty"`
+	Input    string `json:"input"`
+	Ops      []op   `json:"ops"`
 }
 
 // subject is A or a twin: the object pointers of one version.
@@ -83,6 +90,9 @@ func (s subject) top() any {
 // makeSubject decodes the input; on failure the subject is the receiver left behind.
 func makeSubject(c opsCase) (subject, bool) {
 	lv := spec.Level(c.Level)
+	if c.PreQuery && !c.NilRecv {
+		return makeSubjectPreQueried(c)
+	}
 	if c.Ver == 3 {
 		o, err := decode3Keep(lv, c.Input, c.NilRecv)
 		if err != nil && c.NilRecv {
@@ -95,6 +105,75 @@ func makeSubject(c opsCase) (subject, bool) {
 		return subject{}, false
 	}
 	return subject{ver: 2, o2: o}, true
+}
+
+// makeSubjectPreQueried constructs the decoder, observes it completely, then decodes.
+func makeSubjectPreQueried(c opsCase) (subject, bool) {
+	lv := spec.Level(c.Level)
+	if c.Ver == 3 {
+		o := obj3{level: lv}
+		switch lv {
+		case spec.Base:
+			o.B = m3.NewBase()
+			subject{ver: 3, o3: o}.snap()
+			o.B.Decode(c.Input)
+		case spec.Temporal:
+			o.T = m3.NewTemporal()
+			o.B = o.T.BaseMetrics()
+			subject{ver: 3, o3: o}.snap()
+			o.T.Decode(c.Input)
+		default:
+			o.E = m3.NewEnvironmental()
+			o.T, o.B = o.E.TemporalMetrics(), o.E.BaseMetrics()
+			subject{ver: 3, o3: o}.snap()
+			subject{ver: 3, o3: o}.reportOf("ja")
+			o.E.Decode(c.Input)
+		}
+		return subject{ver: 3, o3: o}, true
+	}
+	o := obj2{level: lv}
+	switch lv {
+	case spec.Base:
+		o.B = m2.NewBase()
+		subject{ver: 2, o2: o}.snap()
+		o.B.Decode(c.Input)
+	case spec.Temporal:
+		o.T = m2.NewTemporal()
+		o.B = o.T.BaseMetrics()
+		subject{ver: 2, o2: o}.snap()
+		o.T.Decode(c.Input)
+	default:
+		o.E = m2.NewEnvironmental()
+		o.T, o.B = o.E.TemporalMetrics(), o.E.BaseMetrics()
+		subject{ver: 2, o2: o}.snap()
+		o.E.Decode(c.Input)
+	}
+	return subject{ver: 2, o2: o}, true
+}
+
+// redecode calls Decode a second time on the subject's own top-level object.
+func (s subject) redecode(vector string) error {
+	var err error
+	if s.ver == 3 {
+		switch s.o3.level {
+		case spec.Base:
+			_, err = s.o3.B.Decode(vector)
+		case spec.Temporal:
+			_, err = s.o3.T.Decode(vector)
+		default:
+			_, err = s.o3.E.Decode(vector)
+		}
+		return err
+	}
+	switch s.o2.level {
+	case spec.Base:
+		_, err = s.o2.B.Decode(vector)
+	case spec.Temporal:
+		_, err = s.o2.T.Decode(vector)
+	default:
+		_, err = s.o2.E.Decode(vector)
+	}
+	return err
 }
 
 // setField assigns an exported enumeration field of the subject by name.
@@ -222,7 +301,16 @@ var checkC15 = register("C15/ops", func(c opsCase) string {
 	}
 	recipe := c
 	recipe.Ops = nil
+	recipe.PreQuery = false // the twin is never queried before its Decode
 	var assigns []op
+	// a report built at the start is kept; nothing done later may change its content
+	var heldReport any
+	heldJSON := ""
+	if c.Ver == 3 {
+		heldReport = a.reportOf("ja")
+		b, _ := json.Marshal(heldReport)
+		heldJSON = string(b)
+	}
 	twin := func() subject {
 		t, _ := makeSubject(recipe)
 		for _, as := range assigns {
@@ -257,6 +345,11 @@ var checkC15 = register("C15/ops", func(c opsCase) string {
 				if rd := pr.reportDefault(); !reflect.DeepEqual(rd, defaultReport0) {
 					return fmt.Sprintf("after step %d (%+v) the option-less report of a fresh decode differs from the one built before the history: %+v vs %+v", step, o, rd, defaultReport0)
 				}
+			}
+		}
+		if heldReport != nil && len(assigns) == 0 {
+			if b, _ := json.Marshal(heldReport); string(b) != heldJSON {
+				return fmt.Sprintf("after step %d (%+v) a report built at the start changed its content: %s vs %s", step, o, b, heldJSON)
 			}
 		}
 		if c.Ver == 3 {
@@ -305,6 +398,36 @@ var checkC15 = register("C15/ops", func(c opsCase) string {
 			}
 			assigns = append(assigns, o)
 			reference = twin().snap()
+		case "redecode":
+			// a second Decode on the used object: the unchanged library refuses it (same
+			// metric); if it is accepted, the object must be what a fresh decoder produces
+			// (only while no exported field has been assigned by the harness: Decode does not
+			// promise to reset fields a caller wrote, e.g. those of an absent v2 group)
+			if c.NilRecv || len(assigns) > 0 {
+				continue
+			}
+			err := a.redecode(o.Vector)
+			if err != nil {
+				return "" // the object is now in an unspecified state: the sequence ends here
+			}
+			fresh, ok := makeSubject(opsCase{Ver: c.Ver, Level: c.Level, Input: o.Vector})
+			if !ok {
+				continue
+			}
+			if !refAccept(newStrCase(c.Ver, spec.Level(c.Level), false, o.Vector)) {
+				return fmt.Sprintf("step %d: a second Decode(%q) on a used object succeeded although a fresh decoder rejects that string", i+1, o.Vector)
+			}
+			if d := a.snap().diff(fresh.snap()); d != "" {
+				return fmt.Sprintf("step %d: a second Decode(%q) on a used object succeeded but the object differs from a fresh decode: %s", i+1, o.Vector, d)
+			}
+			recipe.Input = o.Vector
+			assigns = nil
+			reference = twin().snap()
+			pr1, _ := makeSubject(recipe)
+			pristine0 = pr1.snap()
+			defaultReport0 = pr1.reportDefault()
+			exports0 = exportAll(pr1)
+			heldReport = nil
 		case "noise":
 			if o.Ver == 3 {
 				if n, err := decode3(spec.Level(((o.Level%3)+3)%3), o.Vector, false); err == nil {
@@ -368,8 +491,20 @@ func drawOps(rt *rapid.T, ver int, level spec.Level) []op {
 			ops = append(ops, op{Kind: "snapshot"})
 		case k < 13:
 			ops = append(ops, op{Kind: "report", Lang: rapid.SampledFrom([]string{"en", "ja", "ja", "fr", ""}).Draw(rt, "lang")})
+		case k < 16:
+			f := rapid.SampledFrom(fields).Draw(rt, "field")
+			if ver == 3 && rapid.IntRange(0, 7).Draw(rt, "setver") == 0 {
+				f = "Ver"
+			}
+			ops = append(ops, op{Kind: "set", Field: f, Index: rapid.IntRange(-1, 4).Draw(rt, "index")})
 		case k < 17:
-			ops = append(ops, op{Kind: "set", Field: rapid.SampledFrom(fields).Draw(rt, "field"), Index: rapid.IntRange(-1, 4).Draw(rt, "index")})
+			var vec string
+			if rapid.IntRange(0, 3).Draw(rt, "redecodeinvalid") == 0 {
+				vec, _ = gen.Mutated(rt, ver)
+			} else {
+				vec = gen.Valid(ver, level).Draw(rt, "redecodevec").String()
+			}
+			ops = append(ops, op{Kind: "redecode", Vector: vec})
 		default:
 			nv := rapid.SampledFrom([]int{2, 3}).Draw(rt, "noisever")
 			nl := gen.Level().Draw(rt, "noiselevel")
@@ -382,7 +517,7 @@ func drawOps(rt *rapid.T, ver int, level spec.Level) []op {
 func TestC15(t *testing.T) {
 	c := begin(t, "C15")
 	defer c.end()
-	c.rec.F.Rule = "rapid operation sequences (1-40 steps) over an object obtained from a v2 or v3 decoder of any level on a valid, mutated or arbitrary input (successful object, or the receiver left behind by a failed decode): observer queries (Score, Severity, GetError, Encode, String on every level view reached through the accessors), full observations, report construction and export, exported-field assignments (any code or the unknown/invalid constant), and noise (decoding, querying and reporting other vectors). After every step the queried object must equal a freshly decoded, never-queried twin rebuilt from the recipe (exported fields by reflection, every query result at every level, v3 report structs in en and ja), the twin must equal the twin built before the history, and every query repeated twice must agree. Parsers: every code of every metric parsed 200 times. Non-trivial = a sequence containing a query, a later field assignment and a later query, or any query on a failed-decode receiver; distinct by hash of the case."
+	c.rec.F.Rule = "rapid operation sequences (1-40 steps) over an object obtained from a v2 or v3 decoder of any level on a valid, mutated or arbitrary input (successful object, or the receiver left behind by a failed decode): observer queries (Score, Severity, GetError, Encode, String on every level view reached through the accessors), full observations, report construction and export, exported-field assignments (any code or the unknown/invalid constant), a second Decode on the used object (must fail, or yield exactly what a fresh decoder yields), and noise (decoding, querying and reporting other vectors); one case in four queries the constructor result completely *before* its Decode. A deterministic sweep runs query / assign / query for every exported field x every value on 6 representative vectors. After every step the queried object must equal a freshly decoded, never-queried twin rebuilt from the recipe (exported fields by reflection, every query result at every level, v3 report structs in en and ja), the twin must equal the twin built before the history, and every query repeated twice must agree. Parsers: every code of every metric parsed 200 times. Non-trivial = a sequence containing a query, a later field assignment and a later query, or any query on a failed-decode receiver; distinct by hash of the case."
 	c.rec.F.Assumptions = []string{"only observable state is compared (exported fields and query results), as the property words it", "a decoder object is used for one Decode call; re-decoding into a used object is not generated"}
 	nviol := 0
 	if shard == 0 {
@@ -394,6 +529,37 @@ func TestC15(t *testing.T) {
 			}
 		}
 	}
+	// ---- systematic query / assign / query sweep: every exported field x every value on
+	// representative vectors (including scope-changed ones, where the two v3 versions differ)
+	{
+		i := 0
+		vecs := map[int][]string{
+			3: {representatives(3)[4].String(), "CVSS:3.1/AV:N/AC:L/PR:N/UI:N/S:C/C:H/I:H/A:H", "CVSS:3.0/AV:P/AC:H/PR:H/UI:R/S:C/C:H/I:H/A:H/E:F/RL:W/RC:R/MS:X/MC:H", "CVSS:3.1/AV:L/AC:L/PR:L/UI:N/S:U/C:L/I:N/A:H/E:P/CR:H/MS:C/MPR:H"},
+			2: {representatives(2)[4].String(), "AV:L/AC:M/Au:S/C:P/I:N/A:C/E:POC/RL:TF/RC:UR/CDP:H/TD:M/CR:L/IR:H/AR:M"},
+		}
+		for _, ver := range []int{3, 2} {
+			for _, vec := range vecs[ver] {
+				for _, fl := range fieldsOf(ver, spec.Environmental) {
+					name := fl[0].(string)
+					max := 1
+					if m := metricOf(ver, name); m != nil {
+						max = len(m.Codes) - 1
+					}
+					for idx := -1; idx <= max; idx++ {
+						for _, pre := range []bool{false, true} {
+							i++
+							if nviol > 0 || !mine(i) {
+								continue
+							}
+							cs := opsCase{Ver: ver, Level: 2, PreQuery: pre, Input: vec, Ops: []op{{Kind: "snapshot"}, {Kind: "set", Field: name, Index: idx}, {Kind: "snapshot"}, {Kind: "report", Lang: ""}}}
+							c.rec.Case("query-set-query-sweep", fmt.Sprintf("%+v", cs), true, "sweep:query-set-query")
+							evalEnum(c, "ops", cs, checkC15, &nviol)
+						}
+					}
+				}
+			}
+		}
+	}
 	c.rapidStage("sequences", pick(3000, 300000), func(rt *rapid.T) {
 		ver := rapid.SampledFrom([]int{2, 3}).Draw(rt, "version")
 		var cs opsCase
@@ -402,6 +568,7 @@ func TestC15(t *testing.T) {
 		case 0, 1, 2:
 			lv := gen.Level().Draw(rt, "decoder")
 			cs = opsCase{Ver: ver, Level: int(lv), NilRecv: rapid.IntRange(0, 4).Draw(rt, "nilrecv") == 0, Input: gen.Valid(ver, lv).Draw(rt, "valid").String()}
+			cs.PreQuery = !cs.NilRecv && rapid.IntRange(0, 3).Draw(rt, "prequery") == 0
 			cl = append(cl, "input:valid")
 		default:
 			sc, _ := drawStringCase(rt, ver, 64)
